@@ -938,3 +938,128 @@ func genReused(s core.Source) reusedCase {
 	}
 	return c
 }
+
+// ---- iterators of separate collections, at the same time
+
+// Every goroutine owns a collection of the same type as all the others and nothing else, takes iterator after
+// iterator from it and walks them: each must list exactly what the goroutine's own collection holds.
+type separateCase struct {
+	Kind    string `json:"kind"`
+	Workers int    `json:"workers"`
+}
+
+func execSeparateIterators(c separateCase, _ core.Source) (res core.Result) {
+	n := lib.Notation()
+	problems := make([]string, c.Workers)
+	ok, _ := within(60*time.Second, func() {
+		done := make(chan struct{}, c.Workers)
+		start := make(chan struct{})
+		for w := 0; w < c.Workers; w++ {
+			w := w
+			go func() {
+				defer func() {
+					if e := recover(); e != nil {
+						problems[w] = "panicked: " + lib.Short(e)
+					}
+					done <- struct{}{}
+				}()
+				const size = 24
+				own := map[int]bool{}
+				var walk func() []int
+				switch c.Kind {
+				case "Map", "Catalog":
+					var m assocLike[int, int]
+					if c.Kind == "Map" {
+						m = col.Map[int, int](n).Make()
+					} else {
+						m = col.Catalog[int, int](n).Make()
+					}
+					for k := 0; k < size; k++ {
+						m.SetValue(w*1000+k, w*1000+k)
+						own[w*1000+k] = true
+					}
+					walk = func() []int {
+						var out []int
+						for it := m.GetIterator(); it.HasNext(); {
+							a := it.GetNext()
+							if a == nil {
+								out = append(out, -1)
+								continue
+							}
+							if a.GetKey() != a.GetValue() {
+								out = append(out, -2)
+							}
+							out = append(out, a.GetKey())
+						}
+						for _, k := range m.GetKeys().AsArray() {
+							if !own[k] {
+								out = append(out, -3)
+							}
+						}
+						return out
+					}
+				default:
+					vals := make([]int, size)
+					for k := range vals {
+						vals[k] = w*1000 + k
+						own[vals[k]] = true
+					}
+					var seq col.Sequential[int]
+					switch c.Kind {
+					case "List":
+						seq = col.List[int](n).MakeFromArray(vals)
+					case "Array":
+						seq = col.Array[int](n).MakeFromArray(vals)
+					case "Set":
+						seq = col.Set[int](n).MakeFromArray(vals)
+					case "Stack":
+						seq = col.Stack[int](n).MakeFromArray(vals)
+					default:
+						seq = col.Queue[int](n).MakeFromArray(vals)
+					}
+					walk = func() []int {
+						var out []int
+						it := seq.GetIterator()
+						for it.HasNext() {
+							out = append(out, it.GetNext())
+						}
+						it.ToSlot(3)
+						if it.GetPrevious() != out[2] {
+							out = append(out, -4)
+						}
+						return out
+					}
+				}
+				<-start
+				for round := 0; round < 400 && problems[w] == ""; round++ {
+					got := walk()
+					if len(got) != size {
+						problems[w] = fmt.Sprintf("an iterator listed %d values, the collection holds %d", len(got), size)
+					}
+					for _, k := range got {
+						if !own[k] {
+							problems[w] = fmt.Sprintf("an iterator listed %d, which the collection does not hold (negative: no association, key and value apart, a foreign key, a wrong step back)", k)
+						}
+					}
+				}
+			}()
+		}
+		close(start)
+		for w := 0; w < c.Workers; w++ {
+			<-done
+		}
+	})
+	if !ok {
+		res.Violation = core.Violate("C17/separate-collections/hang/"+c.Kind, "%d goroutines walking iterators of their own %ss did not finish within 60 s", c.Workers, c.Kind)
+		return
+	}
+	for w, p := range problems {
+		if p != "" {
+			res.Violation = core.Violate("C17/separate-collections/"+c.Kind, "%d goroutines, each walking iterators of a %s of its own: goroutine %d: %s", c.Workers, c.Kind, w, p)
+			return
+		}
+	}
+	res.NonTrivial = true
+	res.Classes = append(res.Classes, "kind-"+c.Kind)
+	return
+}
